@@ -1105,7 +1105,39 @@ func (f *fnTr) ret(rs *ast.ReturnStmt, em *emitter) {
 
 // block translates statements; returns true if the block ends in a return on every path.
 func (f *fnTr) block(stmts []ast.Stmt, em *emitter, inLoop bool) bool {
+	skip := false
 	for i, st := range stmts {
+		if skip {
+			skip = false
+			continue
+		}
+		// `_, err := io.ReadFull(cryptoRander, buf)` followed by `if err != nil { return "", err }`: the
+		// same idiom as the if-with-initialiser form, provided err is not mentioned afterwards
+		if as, ok := st.(*ast.AssignStmt); ok && i+1 < len(stmts) && as.Tok == token.DEFINE && len(as.Lhs) == 2 && len(as.Rhs) == 1 {
+			if c, ok := as.Rhs[0].(*ast.CallExpr); ok {
+				if p, n, ok := f.selCall(c); ok && p == "io" && n == "ReadFull" {
+					if nx, ok := stmts[i+1].(*ast.IfStmt); ok && nx.Init == nil && nx.Else == nil {
+						if e, ok := as.Lhs[1].(*ast.Ident); ok && e.Name != "_" {
+							for _, later := range stmts[i+2:] {
+								ast.Inspect(later, func(n ast.Node) bool {
+									if id, ok := n.(*ast.Ident); ok && id.Name == e.Name {
+										f.bad(id, "the error of io.ReadFull is used after its check")
+									}
+									return true
+								})
+							}
+							merged := *nx
+							merged.Init = as
+							if f.ifStmt(&merged, em, inLoop) {
+								f.bad(nx, "unexpected shape of the io.ReadFull check")
+							}
+							skip = true
+							continue
+						}
+					}
+				}
+			}
+		}
 		switch x := st.(type) {
 		case *ast.ReturnStmt:
 			if i != len(stmts)-1 {
@@ -1223,6 +1255,53 @@ func (f *fnTr) assign(x *ast.AssignStmt, em *emitter) {
 		}
 		f.bad(x, "two-value assignment")
 	}
+	if len(x.Lhs) == len(x.Rhs) && len(x.Lhs) > 1 {
+		// a, b = x, y  /  a, b := x, y: all right-hand sides are evaluated before any assignment; accepted
+		// for pure expressions of value types only
+		var ls, rs []string
+		var types []string
+		for i := range x.Lhs {
+			id, ok := x.Lhs[i].(*ast.Ident)
+			if !ok || id.Name == "_" {
+				f.bad(x, "parallel assignment to something other than variables")
+			}
+			want := ""
+			if !define {
+				want = f.vars[id.Name]
+			}
+			v := f.expr(x.Rhs[i], want)
+			if v.typ == "untyped" {
+				if want == "" {
+					want = "int"
+				}
+				v = f.convConst(x, v, want)
+			}
+			if !(isIntType(v.typ) || v.typ == "string" || v.typ == "bool") {
+				f.bad(x, "parallel assignment of a value of type %s", v.typ)
+			}
+			em.add(v.pre...) // operands that can panic are evaluated left to right, before any assignment
+			if define {
+				if _, exists := f.vars[id.Name]; exists {
+					f.bad(x, "parallel := that re-assigns an existing variable")
+				}
+			}
+			if !define && f.vars[id.Name] != v.typ {
+				f.bad(x, "parallel assignment of a %s to a %s", v.typ, f.vars[id.Name])
+			}
+			ls = append(ls, id.Name)
+			rs = append(rs, v.term)
+			types = append(types, v.typ)
+		}
+		for i, n := range ls {
+			if define {
+				f.declare(x, n, types[i], "local")
+			} else if _, ok := f.vars[n]; !ok || f.origin[n] == "param-slice" {
+				f.bad(x, "parallel assignment to an undeclared variable")
+			}
+		}
+		em.add("let " + tuple(ls) + " := (" + strings.Join(rs, ", ") + ");")
+		return
+	}
 	if len(x.Lhs) != 1 || len(x.Rhs) != 1 {
 		f.bad(x, "parallel assignment")
 	}
@@ -1336,6 +1415,9 @@ func (f *fnTr) ifStmt(x *ast.IfStmt, em *emitter, inLoop bool) bool {
 		f.gates = append(f.gates, fmt.Sprintf("/-- the rejecting condition of the size gate of %s -/\ndef %s %s : Bool :=\n  %s\n", f.sig.name, name, strings.Join(ps, " "), c.term))
 		c.term = "(" + name + " " + strings.Join(as, " ") + ")"
 	}
+	if f.condAssign(x, c, em) {
+		return false
+	}
 	sub := &emitter{indent: em.indent + 1}
 	saved := map[string]string{}
 	for k, v := range f.vars {
@@ -1383,6 +1465,74 @@ func (f *fnTr) ifStmt(x *ast.IfStmt, em *emitter, inLoop bool) bool {
 	}
 	f.bad(x, "else branch")
 	return false
+}
+
+// condAssign handles `if c { x = e; … } [else { x = e'; … }]` whose branches consist only of plain
+// assignments of pure expressions to already declared local variables of value types: the assigned
+// variables are rebound to a conditional tuple.  Returns false if the statement has another shape.
+func (f *fnTr) condAssign(x *ast.IfStmt, c tval, em *emitter) bool {
+	branches := [][]ast.Stmt{x.Body.List}
+	if x.Else != nil {
+		eb, ok := x.Else.(*ast.BlockStmt)
+		if !ok {
+			return false
+		}
+		branches = append(branches, eb.List)
+	}
+	valueType := func(t string) bool {
+		return isIntType(t) || t == "string" || t == "bool"
+	}
+	var names []string
+	seen := map[string]bool{}
+	for _, b := range branches {
+		if len(b) == 0 {
+			return false
+		}
+		for _, st := range b {
+			as, ok := st.(*ast.AssignStmt)
+			if !ok || as.Tok != token.ASSIGN || len(as.Lhs) != 1 || len(as.Rhs) != 1 {
+				return false
+			}
+			id, ok := as.Lhs[0].(*ast.Ident)
+			if !ok || id.Name == "_" {
+				return false
+			}
+			t, declared := f.vars[id.Name]
+			if !declared || !valueType(t) {
+				return false
+			}
+			if !seen[id.Name] {
+				seen[id.Name] = true
+				names = append(names, id.Name)
+			}
+		}
+	}
+	render := func(b []ast.Stmt) []string {
+		sub := &emitter{indent: em.indent + 1}
+		for _, st := range b {
+			f.assign(st.(*ast.AssignStmt), sub)
+		}
+		for _, l := range sub.lines {
+			if !strings.HasPrefix(strings.TrimSpace(l), "let ") {
+				f.bad(x, "conditional assignment of an expression that can panic")
+			}
+		}
+		sub.add(tuple(names))
+		return sub.lines
+	}
+	thenLines := render(x.Body.List)
+	var elseLines []string
+	if len(branches) == 2 {
+		elseLines = render(branches[1])
+	} else {
+		elseLines = []string{strings.Repeat("  ", em.indent+1) + tuple(names)}
+	}
+	em.add("let " + tuple(names) + " := if " + c.term + " then (")
+	em.lines = append(em.lines, thenLines...)
+	em.add(") else (")
+	em.lines = append(em.lines, elseLines...)
+	em.add(");")
+	return true
 }
 
 // switch tag { case c1, c2: …return…  default: …return… }: an integer tag, constant cases, every clause
